@@ -8,7 +8,7 @@ NOT_NAME = BLANK + '"()/:~'
 EXOTIC = ['\xa0', '\u3000', '\u2028', '\u2029', '\x85', '\x1c', '\x1d', '\x1e', '\x0b', '\x0c']
 EXOTIC_NAME = ['\xa0', '\u3000', '\u2028', '\u2029', '\x85', '\x1c', '\x1d', '\x1e']  # VT/FF are ASCII blanks
 
-VARS = ['a', 'b', 'c', 'd', 'e', 'x1', '_', '_2', 'i', 'x', 'v1', 'z0', 'k']
+VARS = ['a', 'b', 'c', 'd', 'e', 'x1', '_', '_2', 'i', 'x', 'v1', 'z0', 'k', '_9', '_10']
 
 
 def fy(draw, xs):
